@@ -62,7 +62,11 @@ func c13Judge(env *hx.Env, files hx.Files, runs int) (hx.Verdict, int) {
 	bySpelling := map[string]*c13Obs{}
 	done := 0
 	for i := 0; i < runs; i++ {
-		_ = os.Remove(outAbs)
+		if (i/4)%2 == 0 {
+			// every other cycle of spellings runs over what the previous run left at the output path: a rerun
+			// over unchanged sources is the most common pair of "two runs"
+			_ = os.Remove(outAbs)
+		}
 		var cwd, spelled, spell string
 		switch i % 4 {
 		case 0:
@@ -120,7 +124,7 @@ func c13Judge(env *hx.Env, files hx.Files, runs int) (hx.Verdict, int) {
 func TestC13(t *testing.T) {
 	env, rec := start(t, "C13", "exploration",
 		"inputs = rapid-generated programs weighted towards what could expose nondeterminism (several imports incl. aliased and same-named packages, blank imports with qualified converter names, 1-3 interfaces, many methods) "+
-			"and rejected variants (diagnostics must be stable too); each input is run N times (quick 12, thorough 48) in fresh processes with the output removed in between, cycling cwd/path spelling "+
+			"and rejected variants (diagnostics must be stable too); each input is run N times (quick 12, thorough 48) in fresh processes (the output of the previous run is removed before the runs of every other cycle and left in place otherwise), cycling cwd/path spelling "+
 			"(module root, package dir, unrelated dir + absolute path, ./relative) and environment (TZ, LANG/LC_ALL, GOMAXPROCS, TMPDIR, GOGC). Oracle: identical output bytes, exit status, stdout and stderr "+
 			"(stderr compared byte-wise between runs of the same spelling and after replacing the spelled setup/output path across spellings). Non-trivial: input with >= 2 imports or >= 2 interfaces; distinct by program hash.")
 	defer rec.Done()
@@ -157,6 +161,15 @@ func TestC13(t *testing.T) {
 		pf := fullProfile()
 		pf.MaxIfaces, pf.MaxMethods, pf.MaxPairs = 3, 6, 3
 		p := pg.GenProg(rt, pf)
+		if rapid.IntRange(0, 2).Draw(rt, "dependencyFileNamedLikeTheOutput") > 0 && len(p.Ifaces) > 0 {
+			// a dependency has a file with the output's base name that declares a getter the method matches
+			p.ExtraFiles = append(p.ExtraFiles, hx.File{Name: "ext/setup.gen.go", Data: c12DepNamedLikeOutput},
+				hx.File{Name: "home/withextra.go", Data: "package home\n\ntype WithExtra struct {\n\tA     int64\n\tExtra int\n}\n"})
+			p.Ifaces[0].Methods = append(p.Ifaces[0].Methods, pg.Method{Name: "ConvertFromDependency", SrcType: "ext.Inner2", SrcPtr: true,
+				DstType: "WithExtra", DstPtr: true, Opts: pg.Toggles{Getter: 1}})
+			p.FixImports()
+			rec.Class("input:dependency-file-named-like-the-output")
+		}
 		files := p.Files()
 		kind := "as-generated"
 		if rapid.IntRange(0, 4).Draw(rt, "rejected") == 0 {
